@@ -557,4 +557,42 @@ theorem buggy_update_breaks_hint_safe :
   have := hall 3 (by decide) 2 ⟨11, [⟨7, []⟩]⟩ (by decide) (by decide) (by decide)
   omega
 
+/-! ### the historical rescan handed to the caller -/
+
+theorem startHeight_eq (cached : Option Nat) (hint : Nat) :
+    startHeight cached hint = max hint (cached.getD 0) := by
+  unfold startHeight
+  cases cached with
+  | none => simp
+  | some c => simp only [Option.getD_some]; split <;> omega
+
+/-- `rescan_range`: `RegisterConf` hands out a historical dispatch only for a request set whose
+    rescan has not started; its range is exactly [max(client hint, cached hint), current height]
+    (non-empty), and the set is `pending` afterwards … -/
+theorem rescan_range_conf (cur limit reg n hint : Nat) (r : ConfReq) (a b : Nat)
+    (h : (r.register cur limit reg n hint).2 = .hist a b) :
+    a = max hint (r.hint.getD 0) ∧ b = cur ∧ a ≤ b ∧ (r.set = false ∨ r.rescan = .notStarted) ∧
+    (r.register cur limit reg n hint).1.rescan = .pending := by
+  obtain ⟨_, _, _, e4⟩ := register_spec cur limit reg n hint r
+  rw [h] at e4
+  rcases e4 with ⟨q1, q2, q3, q4⟩ | ⟨q, _⟩ | ⟨q, _⟩
+  · simp only [Res.hist.injEq] at q1
+    refine ⟨by rw [q1.1, startHeight_eq], q1.2, by rw [q1.1, q1.2]; exact q3, ?_, q2⟩
+    cases hs : r.set with
+    | false => exact Or.inl rfl
+    | true => simp only [hs, ↓reduceIte] at q4; exact Or.inr q4
+  · cases q
+  · cases q
+
+/-- … so there is at most one rescan per request set: while a rescan is pending or complete no
+    further one is handed out. -/
+theorem no_second_rescan_conf (cur limit reg n hint : Nat) (r : ConfReq) (hs : r.set = true)
+    (hr : r.rescan ≠ .notStarted) : (r.register cur limit reg n hint).2 = .ok := by
+  obtain ⟨_, _, _, e4⟩ := register_spec cur limit reg n hint r
+  simp only [hs, ↓reduceIte] at e4
+  rcases e4 with ⟨_, _, _, q⟩ | ⟨q, _⟩ | ⟨q, _⟩
+  · exact absurd q hr
+  · exact q
+  · exact q
+
 end LndModel.C14
